@@ -625,7 +625,8 @@ func c18WithRootEntries(c *Ctx) {
 			pURL: wire.MustParse(`{"parameters":{"limit":{"name":"limit","in":"body","schema":{"$ref":` + quoteJSON(mURL+"#/definitions/m") + `}}},
 				"responses":{"ok":{"description":"ok","schema":{"$ref":"models.json#/definitions/m"}}},
 				"definitions":{"viaParams":{"$ref":"models.json#/definitions/n"}}}`),
-			mURL: wire.MustParse(`{"definitions":{"m":{"type":"object","properties":{"n":{"$ref":"#/definitions/n"}}},"n":{"type":"string","description":` + quoteJSON(fmt.Sprint("leaf ", i)) + `}}}`)}}
+			// (maxLength 2^53+1: however a document got into the cache, it reads the same)
+			mURL: wire.MustParse(`{"definitions":{"m":{"type":"object","properties":{"n":{"$ref":"#/definitions/n"}}},"n":{"type":"string","maxLength":9007199254740993,"description":` + quoteJSON(fmt.Sprint("leaf ", i)) + `}}}`)}}
 		wj := worldJSON(w)
 		calls := []entryCall{{Entry: "paramRoot", Path: []string{"parameters", "p"}}, {Entry: "paramRoot", Path: []string{"parameters", "q"}},
 			{Entry: "respRoot", Path: []string{"responses", "r"}}, {Entry: "schemaRoot", Path: []string{"definitions", "d"}}, {Entry: "schemaRoot", Path: []string{"definitions", "e"}}}
@@ -1164,14 +1165,19 @@ func c16RootIDs(c *Ctx) {
 		root: wire.MustParse(`{"swagger":"2.0","info":{"title":"t","version":"1"},"paths":{},"definitions":{
 			"withID":{"id":"http://example.com/schemas/root.json","type":"object","properties":{"x":{"$ref":"other.json#/definitions/x"},"n":{"$ref":"node.json"}}},
 			"noID":{"type":"object","properties":{"x":{"$ref":"http://example.com/schemas/other.json#/definitions/x"},"n":{"$ref":"http://example.com/schemas/node.json"}}},
-			"otherID":{"id":"http://example.com/elsewhere/root.json","type":"object","properties":{"x":{"$ref":"http://example.com/schemas/other.json#/definitions/x"}}}}}`),
-		"http://example.com/schemas/other.json": wire.MustParse(`{"definitions":{"x":{"type":"string","description":"x of other"}}}`),
-		"http://example.com/schemas/node.json":  wire.MustParse(`{"type":"object","properties":{"next":{"$ref":"node.json"}}}`)}}
-	names := []string{"withID", "noID", "otherID"}
-	for round := 0; round < c.N(4, 30); round++ {
+			"otherID":{"id":"http://example.com/elsewhere/root.json","type":"object","properties":{"x":{"$ref":"http://example.com/schemas/other.json#/definitions/x"}}},
+			"viaURL":{"type":"object","properties":{"served":{"$ref":"http://example.com/schemas/root.json#/properties/x"},"elsewhere":{"$ref":"http://example.com/elsewhere/root.json"}}}}}`),
+		// what the loader serves at the URLs that two of the schemas above use as their id (other content: an id names
+		// a schema for the call that meets it, it does not publish it for later calls)
+		"http://example.com/schemas/root.json":   wire.MustParse(`{"type":"object","properties":{"x":{"type":"integer","description":"x of the SERVED root.json"}}}`),
+		"http://example.com/elsewhere/root.json": wire.MustParse(`{"type":"boolean","description":"the SERVED elsewhere/root.json"}`),
+		"http://example.com/schemas/other.json":  wire.MustParse(`{"definitions":{"x":{"type":"string","description":"x of other"}}}`),
+		"http://example.com/schemas/node.json":   wire.MustParse(`{"type":"object","properties":{"next":{"$ref":"node.json"}}}`)}}
+	names := []string{"withID", "noID", "otherID", "viaURL"}
+	for round := 0; round < c.N(5, 30); round++ {
 		var seq []entryCall
 		for i := 0; i < 6; i++ {
-			seq = append(seq, entryCall{Entry: "schemaWithBase", Path: []string{"definitions", names[c.Intn(3)]}, Skip: c.Coin(0.6)})
+			seq = append(seq, entryCall{Entry: "schemaWithBase", Path: []string{"definitions", names[c.Intn(4)]}, Skip: c.Coin(0.5)})
 		}
 		for step, call := range seq {
 			hc := histCall{World: worldJSON(w), Call: call}
@@ -1398,6 +1404,53 @@ func runC16(c *Ctx) {
 
 // ---- C17 ----
 
+// c17UnusableIDs: goroutines expanding their own documents, whose schemas carry ids that are no URI at all (the
+// library repairs such an id to an empty location, per call). What such a document expands to depends on map
+// iteration order even when run alone, so results are not compared: the scenario is there for the race detector
+// and for panics.
+func c17UnusableIDs(c *Ctx) {
+	for round := 0; round < c.N(3, 20); round++ {
+		n := []int{8, 16, 4}[round%3]
+		var ws []*refgraph.World
+		for len(ws) < n {
+			w := refgraph.Generate(c.Rng, cacheFamilies()[len(ws)%3].opts)
+			if len(w.BuildGraph().Missing) == 0 {
+				ws = append(ws, withIDs(c, w, "unparseable"))
+			}
+		}
+		pans := make([]string, n)
+		var wg sync.WaitGroup
+		_, hang := timed(120*time.Second, func() {
+			for i := 0; i < n; i++ {
+				wg.Add(1)
+				go func(i int) {
+					defer wg.Done()
+					for k := 0; k < 3; k++ {
+						if r := expandWorld(ws[i], expOpts{Continue: k%2 == 0}); r.Panic != "" {
+							pans[i] = r.Panic
+						}
+					}
+				}(i)
+			}
+			wg.Wait()
+		})
+		c.Count(fmt.Sprint("unusable-ids", round, n), true)
+		c.Hit("scenario:unusable-ids")
+		cs := map[string]interface{}{"scenario": "goroutines expanding their own documents, ids that are no URI", "goroutines": n, "round": round}
+		if hang {
+			c.Fail(Failure{Kind: "crash", Sig: "C17:deadlock", What: "concurrent expansions of independent documents did not finish within 120 s", Case: cs})
+			return
+		}
+		for i, p := range pans {
+			if p != "" {
+				cs["world"] = worldJSON(ws[i])
+				c.Fail(Failure{Kind: "crash", Sig: "C04:panic", What: "an expansion run beside others on independent documents panicked: " + p, Case: cs})
+				break
+			}
+		}
+	}
+}
+
 // c17DeepChains: work size - many goroutines, each expanding its OWN document (nothing is shared) in which
 // definitions refer to each other in a long acyclic chain: every call returns what it returns alone, whatever the
 // others are doing (no budget, counter or table is common to the calls).
@@ -1558,6 +1611,7 @@ func runC17(c *Ctx) {
 	c.Res.Rule = "N in {2,4,8,16} goroutines under GOMAXPROCS in {1,2,4,16}, binary built with -race: (A) concurrent ExpandSpec of distinct worlds without a cache, (B) concurrent ExpandSchemaWithBasePath of the definitions of one world sharing one instrumented cache, (C) concurrent json.Marshal and JSON-pointer lookups on one shared decoded document; oracle: every call returns what it returns alone (by meaning for cyclic graphs), no deadlock (watchdog), no race report; the global trace of (B) is checked by the model's multi-thread validator and replayed through the model's scheduler under the observed schedule; non-trivial = scenario with at least two goroutines touching a common document; distinct by scenario text"
 	c17FreshSharedCache(c)
 	c17DeepChains(c)
+	c17UnusableIDs(c)
 	rounds := c.N(10, 120)
 	procs := []int{1, 2, 4, 16}
 	ns := []int{2, 4, 8, 16}
@@ -1572,6 +1626,7 @@ func runC17(c *Ctx) {
 			var ws []*refgraph.World
 			for len(ws) < n {
 				w := refgraph.Generate(c.Rng, cacheFamilies()[len(ws)%4].opts)
+
 				if len(w.BuildGraph().Missing) == 0 {
 					ws = append(ws, w)
 				}
